@@ -224,6 +224,10 @@ func (prop) Generate(rng *sim.Rng, tier string, runIndex int) driver.Scenario {
 		// sibling names that share a textual prefix with the extraction directory
 		// (a guard comparing un-separated prefixes lets them through)
 		sib := "../sdk" + []string{".temp-evil", ".extract.temp2", ".extractX", "X", ".temp.d"}[rng.Intn(5)] + "/evil4"
+		if rng.Intn(3) == 0 {
+			// the same for the directory the tree is unpacked into since the F24 repair
+			sib = "../tree" + []string{"2", "X", "-evil", ".d"}[rng.Intn(4)] + "/evil4"
+		}
 		h := []string{ups + "evil", "x/" + ups + "../evil", top + ups + "../evil2", "/verif-c20-abs/evil", "lib/../../" + ups + "evil3", ups, sib, "a/../" + sib}[rng.Intn(8)]
 		e := Entry{Name: h, T: "f", Len: rng.Intn(50) + 1, Fill: 0x45}
 		if strings.HasSuffix(h, "/") {
@@ -257,6 +261,32 @@ func (prop) Generate(rng *sim.Rng, tier string, runIndex int) driver.Scenario {
 			}
 		}
 		sc.Reqs = append(sc.Reqs, r)
+	}
+	if rng.Intn(6) == 0 {
+		// the scenario every lock-protocol defect so far has needed: three or four
+		// requests of which an early one fails or dies (so that the lock file changes
+		// hands and perhaps identity while others wait for it) - a good share of the
+		// runs, with a small archive so that the schedule is what varies
+		sc.Reqs = nil
+		for i, n := 0, rng.Range(3, 4); i < n; i++ {
+			var r Req
+			if i == 0 || (i == 1 && rng.Intn(4) == 0) {
+				switch rng.Intn(4) {
+				case 0:
+					r.Faults = append(r.Faults, simos.Fault{K: "net-status", At: -1})
+				case 1:
+					r.Faults = append(r.Faults, simos.Fault{K: "net-connect", At: -1})
+				case 2:
+					r.Faults = append(r.Faults, simos.Fault{K: "net-bodyerr", At: -1, Arg: rng.Intn(2000)})
+				case 3:
+					r.CrashAt = rng.Range(2, 40)
+				}
+			}
+			sc.Reqs = append(sc.Reqs, r)
+		}
+		if len(sc.Entries) > 3 && !hostile {
+			sc.Entries = sc.Entries[:3]
+		}
 	}
 	if rng.Intn(8) == 0 {
 		sc.Debris = append(sc.Debris, []string{"temp", "extract", "extracttemp", "lock"}[rng.Intn(4)])
